@@ -165,6 +165,9 @@ inline void generate(Workload& w, bool cd, int order, int nthreads, int focus, i
 template <bool PIA, class Ctx>
 inline void body(int id, Ctx& ctx) {
   Workload& w = *G;
+  // the harness's own bookkeeping (shared ledgers, the commit log) relies on running atomically between library calls:
+  // plain-access decision points are held off here and released around every call into the library
+  vsim_plain_hold(1);
   if (id < 0 || id >= (int)w.items.size()) vsim_fail("c01.garbage-item", "operator called with item %d outside the workload", id);
   Item& it = w.items[id];
   int attempt = obs_add(&it.attempts, 1);
@@ -190,7 +193,7 @@ inline void body(int id, Ctx& ctx) {
   if constexpr (PIA) {
     for (int b = 0; b < 3; b++) {
       bsz[b] = (size_t)(1 + (id * 37 + b * 101 + attempt * 7) % (b == 2 && id % 11 == 0 ? 5000 : 300));
-      blocks[b] = (char*)ctx.getPerIterAlloc().allocate(bsz[b]);
+      vsim_plain_hold(0); blocks[b] = (char*)ctx.getPerIterAlloc().allocate(bsz[b]); vsim_plain_hold(1);
       if (!blocks[b]) vsim_fail("c09.periter.null", "per-iteration allocator returned null for %zu bytes", bsz[b]);
       if ((uintptr_t)blocks[b] % 8) vsim_fail("c09.periter.align", "per-iteration block %p not 8-byte aligned", (void*)blocks[b]);
       memset(blocks[b], 0x40 + b, bsz[b]);
@@ -206,12 +209,14 @@ inline void body(int id, Ctx& ctx) {
       if (w.cd && attempt < it.vol_aborts && &s == &it.prog.back()) {
         obs_add(&w.aborted_voluntary, 1L);
         if (w.nthreads == 1 && !w.exercise_known) vsim_known("threads=1 voluntary_abort", "ctx.abort() with one active thread: the executor installs no setjmp frame (couldAbort = needsAborts && activeThreads > 1)");
-        else ctx.abort();   // voluntary abort before the last acquire (still cautious)
+        else { vsim_plain_hold(0); ctx.abort(); }   // voluntary abort before the last acquire (still cautious)
       }
+      vsim_plain_hold(0);   // (an abort leaves from inside acquire: the hold must already be released)
       galois::runtime::acquire(o, f == 0 ? galois::MethodFlag::WRITE : f == 1 ? galois::MethodFlag::READ : galois::MethodFlag::UNPROTECTED);
+      vsim_plain_hold(1);
       if (f != 2 && w.cd) { bool dup = false; for (int k = 0; k < nown; k++) if (owned[k] == o) { dup = true; if (f == 0) oflag[k] = 0; } if (!dup && nown < 8) { owned[nown] = o; oflag[nown++] = (unsigned char)f; } }
       break; }
-    case 1: ctx.push(it.children[s.arg]); break;
+    case 1: vsim_plain_hold(0); ctx.push(it.children[s.arg]); vsim_plain_hold(1); break;
     default: for (int y = 0; y < s.arg; y++) vsim_yield();
     }
   }
@@ -246,12 +251,13 @@ inline void body(int id, Ctx& ctx) {
     }
   }
   for (const Step& s : it.tail) {
-    if (s.kind == 1) ctx.push(it.children[s.arg]);
+    if (s.kind == 1) { vsim_plain_hold(0); ctx.push(it.children[s.arg]); vsim_plain_hold(1); }
     else for (int y = 0; y < s.arg; y++) vsim_yield();
   }
   if constexpr (PIA) {
     for (int b = 0; b < 3; b++) for (size_t k = 0; k < bsz[b]; k += (bsz[b] > 64 ? 17 : 1)) if (blocks[b][k] != (char)(0x40 + b)) vsim_fail("c09.periter.canary", "per-iteration block lost its contents before its attempt ended");
   }
+  vsim_plain_hold(0);
 }
 
 // ---- after the loop --------------------------------------------------------
@@ -311,6 +317,7 @@ inline void run_loop(const char* wlname, int order, int focus, WArgs... wargs) {
     else if constexpr (!CD && PIA) galois::for_each(range, op, galois::wl<WL>(wargs...), galois::disable_conflict_detection(), galois::per_iter_alloc());
     else galois::for_each(range, op, galois::wl<WL>(wargs...), galois::disable_conflict_detection());
   };
+  vsim_plain_preempt_window(1);
   if constexpr (RANGE == 0) { run(galois::iterate(w.roots)); }
   else if constexpr (RANGE == 1) { run(galois::iterate(0, (int)w.roots.size())); }
   else {
@@ -318,6 +325,7 @@ inline void run_loop(const char* wlname, int order, int focus, WArgs... wargs) {
     galois::on_each([&](unsigned tid, unsigned tot) { for (size_t i = tid; i < w.roots.size(); i += tot) bag.push(w.roots[i]); });
     run(galois::iterate(bag));
   }
+  vsim_plain_preempt_window(0);
   check_after(wlname);
   long aborted = 0; for (Item& it : w.items) aborted += it.attempts - (it.commits ? 1 : 0);
   vsim_probe_add("attempts_aborted", (uint64_t)aborted);
